@@ -130,6 +130,11 @@ func c17State(w *wctx, p *position.Position, r *refchess.Pos) {
 			return w.replayOf(r, map[string]interface{}{"move": m.String(), "string": s})
 		}
 		run.AddTransitions(1)
+		// the parsing generator is used like a search or a notation writer uses it between two look-ups: it generates the
+		// moves of the position after this move, and the captures of this position (look-ups must not depend on it)
+		p.DoMove(em)
+		w.mg2.GenerateLegalMoves(p, movegen.GenAll)
+		p.UndoMove()
 		// UCI round trip (engine's own string, and the lower-case promotion spelling)
 		for _, u := range []string{em.StringUci(), strings.ToLower(em.StringUci())} {
 			run.AddEvals(1)
@@ -143,6 +148,7 @@ func c17State(w *wctx, p *position.Position, r *refchess.Pos) {
 		if !w.mg2.ValidateMove(p, em) {
 			run.Violate("validatemove", "ValidateMove rejects a legal move", rep(em.StringUci()))
 		}
+		w.mg2.GenerateLegalMoves(p, movegen.GenNonQuiet)
 		// SAN in all decoration variants
 		base := map[string]bool{}
 		for _, v := range []sanVariant{{true, true}, {true, false}, {false, true}, {false, false}} {
